@@ -1,14 +1,18 @@
 """C19 - tabular export and import are faithful round trips."""
+from contracts.c19_tools import CONTRACTS as TOOL_CONTRACTS
 from props.mixins_bounded import TabularRoundTrip
 from verif.spec import PropertySpec
 
 PROPERTY = PropertySpec(
-    id='C19', contracts=[], bounded=[TabularRoundTrip()], level='exploration',
-    explanation='bounded: export / import round trips on the real tools',
-    level_text='bounded run-time contract (stand-in): the substance of this property is what pandas does with the columns fsic hands it (dtype '
+    id='C19', contracts=list(TOOL_CONTRACTS), bounded=[TabularRoundTrip()], level='other',
+    explanation='What fsic hands to pandas is proved: model_to_dataframe builds the column mapping from `names` in model order (underscore-prefixed names only '
+                'when requested; symbolic names, 0-3 variables), each column bound to that series, index = the span object, status / iterations appended iff '
+                'requested and in that order; linker_to_dataframes exports the linker and every submodel exactly once with the same flags under their ids. '
+                'What pandas does with it (dtype preservation, missing values, index fidelity) and from_dataframe / symbol round trips are bounded.',
+    level_text='proof obligations for the column construction / flag forwarding + bounded round trips on the real tools: the substance of this property is what pandas does with the columns fsic hands it (dtype '
                'preservation, missing values, index fidelity), which no contract on fsic\'s functions can decide; columns, order, flags, index, values '
                'and dtypes are compared for models and linkers over span types and flag combinations; symbol lists round-tripped',
     level_note='bound: 8 span types x 8 flag combinations x 3 variable layouts; linkers with 0-2 submodels; catalogue + 150 random programs',
-    technique='contract-based verification: run-time contract on model_to_dataframe / linker_to_dataframes / from_dataframe / dataframe_to_symbols, bounded',
+    technique='contract-based deductive verification of the thin wrappers (pyvc + z3, pandas.DataFrame as an assumed contract); bounded round trips',
     design_ref='DESIGN.md section 10 / C19',
 )
